@@ -260,8 +260,11 @@ func RunC14(env *Env, rep *Report) {
 			cases = append(cases, c14MartCase(l, true))
 		}
 	}
-	for _, kind := range []string{"movement", "mart"} {
-		for _, sel := range []string{"empty-brace", "two-brace", "one-colon", "fallback"} {
+	for _, kind := range []string{"movement", "mart", "moves"} {
+		for _, sel := range []string{"empty-brace", "two-brace", "one-colon", "fallback", "terminator-colon"} {
+			if kind == "moves" && (sel == "empty-brace" || sel == "two-brace") {
+				continue // brace-form cases in moves() are exercised by C12
+			}
 			cases = append(cases, c14PoryswitchCase(kind, sel))
 		}
 	}
@@ -300,7 +303,7 @@ func c14PoryswitchCase(kind, sel string) *Case {
 	key := atoms.New(ClsIdent, "swkey", "")
 	val := atoms.New(ClsIdent, "swval", "swvals", "_")
 	other := atoms.New(ClsIdent, "swother", "swvals", "_")
-	term := map[string]string{"movement": "step_end", "mart": "ITEM_NONE"}[kind]
+	term := map[string]string{"movement": "step_end", "mart": "ITEM_NONE", "moves": "step_end"}[kind]
 	mk := func() *Atom { return atoms.New(ClsIdent, "entry", "entries", term) }
 	first, last := mk(), mk()
 	a1, a2, d1 := mk(), mk(), mk()
@@ -317,8 +320,15 @@ func c14PoryswitchCase(kind, sel string) *Case {
 	case "fallback":
 		caseLabel = other
 		selCase, selected = ": "+a1.Placeholder(), []*Atom{d1}
+	case "terminator-colon":
+		selCase = ": " + term
 	}
 	src := fmt.Sprintf("%s %s {\n%s\nporyswitch(%s) {\n%s%s\n_: %s\n}\n%s\n}", kind, name.Placeholder(), first.Placeholder(), key.Placeholder(), caseLabel.Placeholder(), selCase, d1.Placeholder(), last.Placeholder())
+	var cmdAtom *Atom
+	if kind == "moves" {
+		cmdAtom = atoms.New(ClsPlainCmd, "cmd", "")
+		src = fmt.Sprintf("script %s {\n%s(moves(%s\nporyswitch(%s) {\n%s%s\n_: %s\n}\n%s))\n}", name.Placeholder(), cmdAtom.Placeholder(), first.Placeholder(), key.Placeholder(), caseLabel.Placeholder(), selCase, d1.Placeholder(), last.Placeholder())
+	}
 	prog := &Program{Atoms: atoms, Tops: []interface{}{&TopRaw{Text: src}}}
 	variants := []Variant{{Name: "opt", Opt: CompileOpts{Optimize: true, SwKeys: []Tok{A(key)}, SwVals: []Tok{A(val)}}}}
 	cs := &Case{Name: fmt.Sprintf("c14/%s/poryswitch/%s", kind, sel), Prog: prog, Variants: variants, NonTrivial: true, Shape: c14Shape{Kind: kind, Entries: []string{"poryswitch:" + sel}}, MaxPaths: 64}
@@ -328,11 +338,19 @@ func c14PoryswitchCase(kind, sel string) *Case {
 			return &Violation{Sub: "accept", Msg: "rejected: " + interp.ToString(res.Err.Msg) + res.Err.Panic}
 		}
 		entries := append(append([]*Atom{first}, selected...), last)
+		if sel == "terminator-colon" {
+			entries = []*Atom{first} // the explicit terminator ends the list
+		}
 		var want []interp.Value
 		if kind == "mart" {
 			want = append(want, "\t.align 2")
 		}
-		want = append(want, cat(name.Val, ":"))
+		if kind == "moves" {
+			lbl := cat(name.Val, "_Movement_0")
+			want = append(want, cat(name.Val, "::"), cat("\t", cmdAtom.Val, " ", lbl), "\treturn", cat(lbl, ":"))
+		} else {
+			want = append(want, cat(name.Val, ":"))
+		}
 		for _, e := range entries {
 			if kind == "mart" {
 				want = append(want, cat("\t.2byte ", e.Val))
